@@ -152,7 +152,7 @@ Ltac solve_ops :=
   unfold ret in H; inversion H; reflexivity.
 
 Lemma composite_ops_fine : forall c l cu o k, composite_step c l cu = Some (Some o, k) -> op_fine o = true.
-Proof. solve_ops. Qed.
+Proof. unfold composite_step. solve_ops. Qed.
 Lemma http_ops_fine : forall c l cu o k, http_step c l cu = Some (Some o, k) -> op_fine o = true.
 Proof. solve_ops. Qed.
 Lemma cluster_ops_fine : forall c l cu o k, cluster_step c l cu = Some (Some o, k) -> op_fine o = true.
